@@ -1,3 +1,4 @@
+import ZorgVerif.Gen.Consts
 import ZorgVerif.Lemmas.NoteText
 import ZorgVerif.Lemmas.Move
 /-!
@@ -78,6 +79,10 @@ theorem C10_body_words_kept (body zid : Str) (m : Move.Meta) (hz : zid ≠ []) (
 
 example : Move.movedText 'o' (some "P1".toList) (some 'x') "240101#00 alpha #a".toList "240101#00".toList
     ⟨["p".toList], ["a".toList, "b".toList], [], [], [("k".toList, "v".toList)]⟩ = "x 240101#00 +p #b k::v alpha #a\n".toList := by decide +kernel
+
+/-- **Source constants**: the punctuation `_note_body_has_tag` strips from a word is what `Move.stripTagWord` strips -/
+theorem C10_source_constants : Gen.tagWordRstrip = ["),.?!;:"] ∧ Gen.tagWordLstrip = ["("] ∧
+    Move.stripTagWord "((#tag).,".toList = "#tag".toList := by decide +kernel
 
 /-! Non-vacuity: the repaired corner cases, evaluated by the kernel -/
 example : addNote ["# B".toList, [], "- 240102#00 last line of b".toList] ["- 240101#01 moved".toList, []] =
